@@ -43,6 +43,8 @@ def strategy(tier):
         "container_model": st.sampled_from([False, False, True]),
         "long_lived_producers": st.sampled_from([False, False, False, True, True]),
         "two_types": st.booleans(),
+        # stream 0 is the "default" stream of a StreamInformation() that the model creates in construct_model
+        "default_info": st.sampled_from([False, False, True]),
         "same_rep_object": st.booleans(),
         "drive2": st.sampled_from(["start", "start", "steps", "bounded"]), "k2": st.integers(1, 6),
         "reinit_listener": st.sampled_from([None, None, "START_REPLICATION", "STARTING", "START", "TIME_CHANGED",
@@ -66,7 +68,7 @@ def _fresh_run(prog, seeds, n_initial=0, reuse=False, llp=False, case=None):
         prog = dict(prog, container_model=True)
     h = Harness(prog)
     stoch.install(h.model, seeds, reuse_streams=reuse, long_lived_producers=llp,
-                  two_types=bool(case.get("two_types")))
+                  two_types=bool(case.get("two_types")), default_info=bool(case.get("default_info")))
     _add_initial(h, n_initial)
     try:
         h.initialize()
@@ -257,9 +259,11 @@ def run_case(case):
     if pr.get("same_seeds"):
         out.label("prior-same-seeds")
     stoch.install(h.model, prior_seeds, reuse_streams=reuse, long_lived_producers=llp,
-                  two_types=bool(case.get("two_types")))
+                  two_types=bool(case.get("two_types")), default_info=bool(case.get("default_info")))
     if case.get("two_types"):
         out.label("two-event-types-per-producer")
+    if case.get("default_info"):
+        out.label("default-stream-of-StreamInformation")
     _add_initial(h, n_init)
     left_pending = left_stats = False
     try:
